@@ -7,6 +7,7 @@ import (
 	"go/types"
 	"sort"
 	"strings"
+	"sync"
 
 	"golang.org/x/tools/go/ssa"
 )
@@ -881,6 +882,25 @@ func StringSetAt(fn *ssa.Function, b *ssa.BasicBlock, same func(ssa.Value) bool)
 // CondAtomsReaching lists the If-condition atoms whose branch can be executed before
 // control arrives at site on a forward path (atoms tested only later are irrelevant to a guard).
 func CondAtomsReaching(fn *ssa.Function, site *ssa.BasicBlock) []ssa.Value {
+	condAtomsMu.Lock()
+	if r, ok := condAtomsCache[site]; ok {
+		condAtomsMu.Unlock()
+		return r
+	}
+	condAtomsMu.Unlock()
+	out := condAtomsReaching(fn, site)
+	condAtomsMu.Lock()
+	condAtomsCache[site] = out
+	condAtomsMu.Unlock()
+	return out
+}
+
+var (
+	condAtomsMu    sync.Mutex
+	condAtomsCache = map[*ssa.BasicBlock][]ssa.Value{}
+)
+
+func condAtomsReaching(fn *ssa.Function, site *ssa.BasicBlock) []ssa.Value {
 	var out []ssa.Value
 	seen := map[ssa.Value]bool{}
 	for _, b := range fn.Blocks {
